@@ -458,6 +458,7 @@ theorem step_coherent (F : Fns α) (st : State α) (op : Op α) (h : Coherent F 
   | setNoise v => exact doSetNoise_coherent F st v h
   | setW w => exact setW_coherent F st w h
   | readLayout => exact h
+  | stackData x xe => exact h
   | readPL => exact h
   | readNoiseVar => exact h
   | readLastNoise => exact h
@@ -606,6 +607,7 @@ def Op.isRead : Op α → Bool
   | .readH | .readBigH | .readHkl _ _ | .readHk _ | .readBigHNoExt | .readHkNoExt _ | .readHNoExt => true
   | .corrupt _ _ _ => true
   | .readLayout | .readPL | .readBigWView | .readNoiseVar | .readLastNoise | .corruptCat _ _ => true
+  | .stackData _ _ => true
   | _ => false
 
 theorem sameInputs_spec (F : Fns α) {a b : State α} (h : SameInputs a b) :
@@ -690,6 +692,7 @@ theorem read_sameInputs (F : Fns α) (st : State α) (op : Op α) (hr : op.isRea
       · exact tr (finishCorrupt_same F _ _ _) hB
       · exact hB
   | readLayout => exact triv
+  | stackData x xe => exact triv
   | readPL => exact triv
   | readNoiseVar => exact triv
   | readLastNoise => exact triv
@@ -920,6 +923,7 @@ theorem step_wellShaped (F : Fns α) (st : State α) (op : Op α) (h : WellShape
   | readHNoExt => exact wellShaped_of_same (read_sameInputs F st _ rfl) h
   | corrupt x xe noise => exact wellShaped_of_same (read_sameInputs F st _ rfl) h
   | readLayout => exact wellShaped_of_same (read_sameInputs F st _ rfl) h
+  | stackData x xe => exact wellShaped_of_same (read_sameInputs F st _ rfl) h
   | readPL => exact wellShaped_of_same (read_sameInputs F st _ rfl) h
   | readBigWView => exact wellShaped_of_same (read_sameInputs F st _ rfl) h
   | readNoiseVar => exact wellShaped_of_same (read_sameInputs F st _ rfl) h
@@ -1104,6 +1108,7 @@ theorem step_isExt (F : Fns α) (st : State α) (op : Op α) : (step Cfg.fixed F
     | readHNoExt => simp [Op.isRead] at hr
     | corrupt x xe noise => simp [Op.isRead] at hr
     | readLayout => simp [Op.isRead] at hr
+    | stackData x xe => simp [Op.isRead] at hr
     | readPL => simp [Op.isRead] at hr
     | readBigWView => simp [Op.isRead] at hr
     | readNoiseVar => simp [Op.isRead] at hr
@@ -1189,6 +1194,7 @@ theorem opOK_of_opOKb (st : State α) (op : Op α) (h : opOKb st op = true) : Op
   | readHNoExt => simp [OpOK]
   | corrupt x xe noise => simp [OpOK]
   | readLayout => simp [OpOK]
+  | stackData x xe => simp [OpOK]
   | readPL => simp [OpOK]
   | readBigWView => simp [OpOK]
   | readNoiseVar => simp [OpOK]
@@ -1292,6 +1298,7 @@ theorem step_err_unchanged (F : Fns α) (st : State α) (op : Op α) (e : Proto.
     | readH => exact hH
     | readHkl k l => exact hH
     | readLayout => rfl
+    | stackData x xe => rfl
     | readPL => rfl
     | readNoiseVar => rfl
     | readLastNoise => rfl
@@ -1407,6 +1414,7 @@ theorem step_err_unchanged (F : Fns α) (st : State α) (op : Op α) (e : Proto.
     | readHNoExt => simp [Op.isRead] at hr
     | corrupt x xe noise => simp [Op.isRead] at hr
     | readLayout => simp [Op.isRead] at hr
+    | stackData x xe => simp [Op.isRead] at hr
     | readPL => simp [Op.isRead] at hr
     | readBigWView => simp [Op.isRead] at hr
     | readNoiseVar => simp [Op.isRead] at hr
@@ -1549,6 +1557,13 @@ theorem block_blockDiag (ws : List (Mat α)) (hrect : ∀ w ∈ ws, ∀ r ∈ w,
       have h1 : cum (ws.map cols) (l + 1) ≤ cum (ws.map cols) k := cum_mono _ h
       rw [slice_zeros_mid_left _ r _ (by omega) h1]
       congr 1; omega
+
+/-- stacking keeps every block: cut at the blocks' own row counts, the l-th piece of the stack is the
+    l-th block, entry for entry -/
+theorem seg_flatten_blocks {β : Type} (xs : List (List β)) {l : Nat} {x : List β} (hx : xs[l]? = some x) :
+    seg (xs.map List.length) xs.flatten l = x := by
+  have := seg_flatMap xs (fun y => y) hx
+  simpa [List.flatMap_id] using this
 
 end BD
 end PyPhysim.C08
